@@ -101,3 +101,40 @@ Definition cinfo_from_opt (var_scales eq_scales nl_scales : option (list Q)) (ci
   {| ci_bound := fam_from_opt var_scales (ci_bound ci);
      ci_linear := fam_from_opt eq_scales (ci_linear ci);
      ci_nonlinear := fam_from_opt nl_scales (ci_nonlinear ci) |}.
+
+(* ---- which result a tracker retains (plugins/plan/_utils.py: _get_last_result, _update_optimal_result) ---- *)
+(* one delivered function result as the tracker sees it: are function values present, the weighted objective
+   ([None] = NaN) and the constraint information of the item the tolerance test is applied to *)
+Record titem := { ti_fun : bool; ti_obj : option Q; ti_info : option cinfo }.
+Definition ti_ok (tol : option Q) (it : titem) : bool := ti_fun it && feasible tol (ti_info it).
+
+(* _get_last_result: the last delivered item that has function values and does not violate; [i] = index of the
+   head of [items] *)
+Fixpoint last_ok (tol : option Q) (items : list titem) (i : nat) : option nat :=
+  match items with
+  | [] => None
+  | it :: r => match last_ok tol r (S i) with
+               | Some j => Some j
+               | None => if ti_ok tol it then Some i else None
+               end
+  end.
+
+(* _update_optimal_result / _get_new_optimal_result: an admissible item replaces the current optimum when its
+   objective is a number and strictly smaller (or there is no optimum yet) *)
+Definition improves (o : Q) (cur : option (nat * Q)) : bool :=
+  match cur with None => true | Some (_, b) => Qltb o b end.
+Definition best_step (tol : option Q) (i : nat) (it : titem) (cur : option (nat * Q)) : option (nat * Q) :=
+  if ti_ok tol it then
+    match ti_obj it with
+    | Some o => if improves o cur then Some (i, o) else cur
+    | None => cur
+    end
+  else cur.
+Fixpoint best_ok (tol : option Q) (items : list titem) (i : nat) (cur : option (nat * Q)) : option (nat * Q) :=
+  match items with
+  | [] => cur
+  | it :: r => best_ok tol r (S i) (best_step tol i it cur)
+  end.
+
+Definition tracked_last (tol : option Q) (items : list titem) : option nat := last_ok tol items 0.
+Definition tracked_best (tol : option Q) (items : list titem) : option nat := option_map fst (best_ok tol items 0 None).
